@@ -49,6 +49,11 @@ def models(tier):
     alpha2 = [("eof", 0), ("eof", 1), ("m", 0, "dpr"), ("m", 1, "rh:1"), ("m", 1, "rh:2"), ("ans", 0), ("ans", 1), ("ans", 2), ("ans2", 0), ("rst", 0)]
     out.append(monitors.ScenarioModel("one-peer-two-connections", BASE, alpha2, MONS, max_socks=2,
                                       prelude=[("accept",), ("m", 0, "cer_p0"), ("m", 0, "rh:1"), ("m", 0, "rh:2"), ("accept",), ("m", 1, "cer_p0")]))
+    # two relays present requests of two origin hosts under the same (hop-by-hop, end-to-end) pair (hop-by-hop ids are unique per
+    # connection only, end-to-end ids per origin host only); both are pending at the application at the same time
+    alphap = [("m", 0, "rx1:a:0:1"), ("m", 1, "rx1:b:0:1"), ("m", 1, "rx1:b:0:2"), ("ans", 0), ("ans", 1), ("ans", 2), ("ans2", 0), ("eof", 0), ("eof", 1), ("m", 1, "dpr")]
+    out.append(monitors.ScenarioModel("two-peers-equal-identifier-pairs", BASE, alphap, [monitors.AnswerRoutePairMonitor, monitors.AnswerMonitor], max_socks=2,
+                                      prelude=[("accept",), ("m", 0, "cer_p0"), ("accept",), ("m", 1, "cer_p1")]))
     # a second deterministic scheduling policy (the I/O thread runs only when nothing else can)
     if True:
         out = monitors.with_io_last(out)
